@@ -61,7 +61,7 @@ class C14(Base):
     RULE = ("(seq) random histories of get_for_lang / IntlLangMemoizer::new / drop / with_try_get (direct and through "
             "fluent_bundle's MemoizerKind) over 6 languages, 3 counting formatter types (A, B never fail; F fails its "
             "first n constructions, n in {0,1,2,3,always}) and 8 argument strings, plus fail-then-succeed and "
-            "handle-lifecycle focused families; (cseq) the same on concurrent::IntlLangMemoizer from one thread; "
+            "handle-lifecycle focused families and a many-values family (9-70 distinct argument values of one type, then repeats); (cseq) the same on concurrent::IntlLangMemoizer from one thread; "
             "(conc) 2-8 real threads released by a barrier onto a cold concurrent::IntlLangMemoizer with programs "
             "that start on one shared key (simultaneous first lookups) or draw from a small key pool - this is "
             "schedule SAMPLING (the OS schedules), the model runs the schedule written in the case line and the "
@@ -114,6 +114,24 @@ class C14(Base):
                 # x = 666: the callback panics (single-thread memoizer only); the key must stay cached
                 x = 666 if (not conc and rng.random() < 0.12) else rng.randrange(100)
                 ops.append("get:%d:%s:%s:%d:%s" % (h, ty, arg, x, rng.choice("dk")))
+        return ("cseq " if conc else "seq ") + ";".join(ops)
+
+    def gen_many(self, rng, conc):
+        """MANY distinct argument values of one formatter type (9..70: beyond any small inline table, several hash-map
+        growth steps), then repeats of early, middle and late ones in random order; a second type shares the values"""
+        n = rng.choice([9, 10, 12, 16, 17, 24, 33, 40, 65, 70])
+        ty = rng.choice(["A", "A", "B", "C"])
+        vals = [hx("k%d" % i) for i in range(n)]
+        if rng.random() < 0.3:
+            rng.shuffle(vals)
+        ops = ["new:en" if conc else "lang:" + rng.choice(LANGS)]
+        for v in vals:
+            ops.append("get:0:%s:%s:%d:%s" % (ty, v, rng.randrange(100), rng.choice("dk")))
+        rep = [vals[0], vals[1], vals[7], vals[8], vals[n // 2], vals[-1]] + rng.sample(vals, min(n, 6))
+        rng.shuffle(rep)
+        for v in rep:
+            t2 = ty if rng.random() < 0.8 else rng.choice(["A", "C"])
+            ops.append("get:0:%s:%s:%d:%s" % (t2, v, rng.randrange(100), rng.choice("dk")))
         return ("cseq " if conc else "seq ") + ";".join(ops)
 
     def gen_failthen(self, rng, conc):
@@ -182,6 +200,8 @@ class C14(Base):
             yield "memo " + self.gen_failthen(rng, rng.random() < 0.3)
         for _ in range(700 if q else 10000):
             yield "memo " + self.gen_lifecycle(rng)
+        for _ in range(150 if q else 5000):
+            yield "memo " + self.gen_many(rng, rng.random() < 0.35)
         for _ in range(1000 if q else 20000):
             yield "memo " + self.gen_hist(rng, True, 30)
         for _ in range(2500 if q else 120000):
